@@ -208,7 +208,8 @@ def run_job(job, scratch_root, keep=False):
         status = p.get("status", "")
         is_reach = any(desc.startswith(r) for r in job["reach"]) if job["reach"] else False
         if is_reach:
-            reach_seen[desc] = status
+            if p.get("sourceLocation", {}).get("function") == entry:
+                reach_seen[desc] = status
             continue
         n += 1
         cls = name.rsplit(".", 1)[0].split(".", 1)[-1] if "." in name else name
